@@ -182,3 +182,323 @@ def replay_grad(model, params, clause, info):
             bad |= not ok
     return {"violates": bad, "detail": "; ".join(detail),
             "entry": {"module": "contracts.C19_backward", "function": "replay_grad", "args": [model, list(params), clause, info]}}
+
+
+# ------------------------------------------------------------------------------ log normal CDF -------------
+LNC = "gpytorch.functions._log_normal_cdf.LogNormalCDF"
+
+
+def _coeff_lists(index):
+    """the literal coefficient lists c, r, q of LogNormalCDF.forward, read from the AST (mechanical extraction)"""
+    import ast
+    fi = index.get_function(f"{LNC}.forward")
+    out = {}
+    for st in ast.walk(fi.node):
+        if isinstance(st, ast.Assign) and isinstance(st.targets[0], ast.Name) and st.targets[0].id in ("c", "r", "q") \
+                and isinstance(st.value, ast.Call) and st.value.args and isinstance(st.value.args[0], ast.List):
+            out[st.targets[0].id] = st.value.args[0].elts
+    return out
+
+
+def lognormcdf_spec(c, z):
+    """the three-branch definition (structure from the function's docstring/comments; coefficient values from its literals):
+    |z| < 0.2  : -2 f - log 2,  f = Horner recurrence f <- l (c_i + f), l = -z / sqrt(2 pi)
+    z < -1     : log(e / 2) - z^2 / 2,  e = num / den,  num <- -z num / sqrt 2 + r_i (from 0.5641895835477550741), den <- -z den / sqrt 2 + q_i (from 1)
+    otherwise  : log Phi(z)"""
+    from engine.symexec import Env
+    it, ctx = c.it, c.ctx
+    co = _coeff_lists(it.index)
+    mod = it.index.get_module("gpytorch.functions._log_normal_cdf")
+    ev = lambda node: it.eval(ctx, node, Env(module=mod)).real()
+    sqrt2pi = dom_real.apply(ctx, "sqrt", 2 * dom_real.pi(ctx))
+    sqrt2 = dom_real.apply(ctx, "sqrt", z3.RealVal(2))
+    l = dom_real.rdiv(ctx, -z, sqrt2pi)
+    f = z3.RealVal(0)
+    for node in co["c"]:
+        f = l * (ev(node) + f)
+    near = -2 * f - dom_real.apply(ctx, "log", z3.RealVal(2))
+    num, den = z3.RealVal(repr(0.5641895835477550741)), z3.RealVal(1)  # (a source literal denotes its nearest double)
+    for node in co["r"]:
+        num = -(z * dom_real.rdiv(ctx, num, sqrt2)) + ev(node)
+    for node in co["q"]:
+        den = -(z * dom_real.rdiv(ctx, den, sqrt2)) + ev(node)
+    e = dom_real.rdiv(ctx, num, den)
+    small = dom_real.apply(ctx, "log", e / 2) - z * z / 2
+    ordinary = dom_real.apply(ctx, "log", dom_real.apply(ctx, "Phi", z))
+    is_near, is_small = z * z < z3.RealVal("0.04"), z < -1
+    return z3.If(is_near, near, z3.If(is_small, small, ordinary)), (is_near, is_small, num, den)
+
+
+@case("C19", clause="log_normal_cdf", expand=lambda ix: [(1,)], replay=lambda *a: replay_lncdf(*a), timeout=1500, tier="thorough",
+      name="log_normal_cdf_vector", functions=[f"{LNC}.forward", f"{LNC}.backward"])
+def log_normal_cdf_vector(c, rank):
+    """the same contract on a vector of symbolic length (mask / count logic of the three branches); slow: thorough tier"""
+    return log_normal_cdf(c, rank)
+
+
+@case("C19", clause="log_normal_cdf", expand=lambda ix: [(0,)], replay=lambda *a: replay_lncdf(*a), timeout=300,
+      functions=[f"{LNC}.forward", f"{LNC}.backward"])
+def log_normal_cdf(c, rank):
+    """forward: the three masks partition the reals and each entry gets its branch's expression; backward: grad_output times
+    sqrt(2/pi) |den/num| on the z < -1 branch and sqrt(2/pi) exp(-z^2/2 - forward(z) + log 1/2) elsewhere (= phi(z) / Phi^(z) for the
+    Phi^ the forward computed), the same on every call (backward does not disturb what forward stored)"""
+    it, ctx = c.it, c.ctx
+    n = c.size("n")
+    shape = [n.t] if rank else []
+    z = sym_tensor("z", shape)
+    stored = {}
+    saved = []
+    cx = Stub("ctx", attrs={}, methods={"save_for_backward": lambda *a: (saved.append(list(a)), NONE)[1]})
+    res = it.call(ctx, c.func(f"{LNC}.forward"), [cx, z], {})
+    idx = [ivar("i")] if rank else []
+    for v in idx:
+        c.assume(z3.And(v >= 0, v < n.t))
+    zi = z.at(idx)
+    spec, (is_near, is_small, num, den) = lognormcdf_spec(c, zi)
+    c.prove("lncdf.masks_partition", z3.Not(z3.And(is_near, is_small)))
+    c.instantiate_facts([idx])
+    got = res.at(idx)
+    c.prove("lncdf.forward_branches", got == spec)
+    c.prove("lncdf.saves_input_and_output", z3.BoolVal(len(saved) == 1 and len(saved[0]) == 2 and saved[0][0] is z))
+    # backward, twice on the same ctx (row-by-row Jacobians / retain_graph back-propagate the same graph repeatedly)
+    fwd_out = saved[0][1] if saved and len(saved[0]) == 2 else res
+    cx.attrs["saved_tensors"] = VTuple([z, fwd_out])
+    g1, g2 = sym_tensor("grad1", shape), sym_tensor("grad2", shape)
+    sqrt_2_over_pi = dom_real.apply(ctx, "sqrt", 2 / dom_real.pi(ctx))
+    ratio = dom_real.rdiv(ctx, den, num)
+    want_unit = z3.If(is_small, z3.If(ratio >= 0, ratio, -ratio) * sqrt_2_over_pi,
+                      dom_real.apply(ctx, "exp", -(zi * zi) / 2 - spec + dom_real.apply(ctx, "log", z3.RealVal("0.5"))) * sqrt_2_over_pi)
+    for rnd, g in ((1, g1), (2, g2)):
+        out = it.call(ctx, c.func(f"{LNC}.backward"), [cx, g], {})
+        c.instantiate_facts([idx])
+        c.prove(f"lncdf.backward[call {rnd}]", out.at(idx) == want_unit * g.at(idx))
+
+
+def replay_lncdf(model, params, clause, info):
+    import math
+    import torch
+    from gpytorch.functions import log_normal_cdf
+    z = torch.tensor([-30.0, -8.0, -2.5, -1.0001, -0.9, -0.19, 0.0, 0.1, 0.21, 1.0, 4.0], dtype=torch.double, requires_grad=True)
+    out = log_normal_cdf(z)
+    ref = torch.special.log_ndtr(z.detach())
+    ok = bool(((out.detach() - ref).abs() < 2e-3).all())
+    detail = [f"forward max abs err vs log_ndtr {(out.detach() - ref).abs().max().item():.2e}"]
+    # back-propagate the same graph three times (row-by-row): the gradient must be the same each time
+    grads = []
+    for _ in range(3):
+        (g,) = torch.autograd.grad(out, z, torch.ones_like(out), retain_graph=True)
+        grads.append(g)
+    same = all(torch.equal(grads[0], g) for g in grads[1:])
+    zz = z.detach()
+    true = torch.exp(-zz ** 2 / 2 - ref) / math.sqrt(2 * math.pi)
+    rel = ((grads[0] - true).abs() / true).max().item()
+    detail.append(f"gradient identical over repeated backward calls: {same}; max rel err vs phi/Phi {rel:.2e}")
+    ok = ok and same and rel < 2e-3
+    return {"violates": not ok, "detail": "; ".join(detail),
+            "entry": {"module": "contracts.C19_backward", "function": "replay_lncdf", "args": [model, list(params), clause, info]}}
+
+
+# ------------------------------------------------------------------ natural parameterisations -------------------------
+NAT = "gpytorch.variational.natural_variational_distribution"
+TRN = "gpytorch.variational.tril_natural_variational_distribution"
+
+
+def lit_matrix(bs, m, entry):
+    """[*bs, m, m] tensor with literal extent m; entry(bidx, i, j) -> real term for literal i, j"""
+    nb = len(bs)
+
+    def elem(idx):
+        b, i, j = list(idx[:nb]), idx[nb], idx[nb + 1]
+        r = None
+        for p in reversed(range(m)):
+            for q in reversed(range(m)):
+                e = entry(b, p, q)
+                r = e if r is None else z3.If(z3.And(i == p, j == q), e, r)
+        return r
+
+    return VTensor([Dim([e]) for e in bs] + [Dim([m]), Dim([m])], elem, "real")
+
+
+def lower_factor(c, name, bs, m):
+    """a lower-triangular factor with positive diagonal (entries are arbitrary functions of the batch index) and its explicit
+    inverse by forward substitution (polynomial in the entries and the reciprocals of the diagonal)"""
+    ctx = c.ctx
+    fs = {(p, q): z3.Function(f"{name}{p + 1}{q + 1}", *([z3.IntSort()] * len(bs) + [z3.RealSort()])) for p in range(m) for q in range(p + 1)}
+
+    def ent(b, p, q):
+        if q > p:
+            return z3.RealVal(0)
+        v = fs[(p, q)](*b) if bs else z3.Const(f"{name}{p + 1}{q + 1}", z3.RealSort())
+        if p == q:
+            ctx.assume(v > 0)
+        return v
+
+    def inv_ent(b, p, q):
+        if q > p:
+            return z3.RealVal(0)
+        if p == q:
+            return dom_real.recip(ctx, ent(b, p, p))
+        # (L^-1)[p, q] = -(1/L[p,p]) * sum_{k=q}^{p-1} L[p,k] (L^-1)[k,q]
+        s = z3.RealVal(0)
+        for k in range(q, p):
+            s = s + ent(b, p, k) * inv_ent(b, k, q)
+        return z3.simplify(-dom_real.recip(ctx, ent(b, p, p)) * s)
+
+    return lit_matrix(bs, m, ent), lit_matrix(bs, m, inv_ent), ent
+
+
+def batch_setup(c, br):
+    bs = [c.size(f"b{q}").t for q in range(br)]
+    b = [ivar("b") for _ in bs]
+    for v, e in zip(b, bs):
+        c.assume(z3.And(v >= 0, v < e))
+    return bs, b
+
+
+@case("C19", clause="phi_for_cholesky", expand=lambda ix: [(0,), (1,), (2,)], replay=lambda *a: replay_natural(*a), functions=[f"{NAT}._phi_for_cholesky_"])
+def phi_for_cholesky(c, br):
+    """Phi(A): strictly lower triangle kept, diagonal halved, upper triangle zero -- per matrix of the batch, in place"""
+    it, ctx = c.it, c.ctx
+    bs, b = batch_setup(c, br)
+    m = c.size("m")
+    A = sym_tensor("A", bs + [m.t, m.t])
+    A0 = A.meta["uf"]
+    i, j = ivar("i"), ivar("j")
+    c.assume(z3.And(i >= 0, i < m.t, j >= 0, j < m.t))
+    r = it.call(ctx, c.func(f"{NAT}._phi_for_cholesky_"), [A], {})
+    a0 = A0(*(b + [i, j]))
+    c.prove("phi.elementwise", r.at(b + [i, j]) == z3.If(j < i, a0, z3.If(i == j, a0 / 2, 0)))
+    c.prove("phi.shape_kept", z3.BoolVal(len(r.dims) == br + 2))
+    c.prove("phi.extents_kept", z3.And(*[d.size == e for d, e in zip(r.dims, bs + [m.t, m.t])]))
+
+
+@case("C19", clause="cholesky_backward", expand=lambda ix: [(m, br) for m in (1, 2, 3) for br in (0, 1)], replay=lambda *a: replay_natural(*a),
+      functions=[f"{NAT}._cholesky_backward", f"{NAT}._phi_for_cholesky_"], timeout=600)
+def cholesky_backward(c, m, br):
+    """R = _cholesky_backward(G, L, L^-1) is THE gradient of f(chol(Sigma)) w.r.t. the symmetric Sigma = L L^T:  R is symmetric and
+    for every lower-triangular tangent Ldot (the tangents of the Cholesky factor; Ldot -> Ldot L^T + L Ldot^T is onto the symmetric
+    matrices)   <G, Ldot> = <R, Ldot L^T + L Ldot^T>.   Matrix size enumerated (m = 1, 2, 3), entries and batch symbolic."""
+    it, ctx = c.it, c.ctx
+    bs, b = batch_setup(c, br)
+    L, C, lent = lower_factor(c, "l", bs, m)
+    G = sym_tensor("G", bs + [z3.IntVal(m), z3.IntVal(m)])
+    Gc = sym_tensor("G", bs + [z3.IntVal(m), z3.IntVal(m)])
+    R = it.call(ctx, c.func(f"{NAT}._cholesky_backward"), [Gc, L, C], {})
+    td = {(p, q): z3.Real(f"ldot{p + 1}{q + 1}") for p in range(m) for q in range(p + 1)}
+    lhs = z3.RealVal(0)
+    rhs = z3.RealVal(0)
+    for p in range(m):
+        for q in range(m):
+            if q <= p:
+                lhs = lhs + G.at(b + [z3.IntVal(p), z3.IntVal(q)]) * td[(p, q)]
+            sd = z3.RealVal(0)  # (Ldot L^T + L Ldot^T)[p, q]
+            for k in range(m):
+                if k <= p and k <= q:
+                    sd = sd + td[(p, k)] * lent(b, q, k) + lent(b, p, k) * td[(q, k)]
+            rhs = rhs + R.at(b + [z3.IntVal(p), z3.IntVal(q)]) * sd
+            if q < p:
+                c.prove_identity(f"cholesky_backward.symmetric[{p},{q}]", R.at(b + [z3.IntVal(p), z3.IntVal(q)]), R.at(b + [z3.IntVal(q), z3.IntVal(p)]))
+    c.prove_identity("cholesky_backward.is_gradient_wrt_Sigma", lhs, rhs)
+    c.prove("cholesky_backward.upstream_gradient_not_modified", Gc.at(b + [z3.IntVal(0), z3.IntVal(0)]) == G.at(b + [z3.IntVal(0), z3.IntVal(0)]))
+
+
+@case("C19", clause="natural_backward", expand=lambda ix: [(0,), (1,)], replay=lambda *a: replay_natural(*a),
+      functions=[f"{NAT}._NaturalToMuVarSqrt._backward", f"{NAT}._NaturalToMuVarSqrt.backward"])
+def natural_backward(c, br):
+    """gradient w.r.t. the expectation parameters eta1 = mu, eta2 = mu mu^T + Sigma of f(mu, chol(Sigma)): with dSigma the
+    (symmetric) gradient w.r.t. Sigma -- callee contract of _cholesky_backward, proved in `cholesky_backward` -- and
+    Sigma = eta2 - eta1 eta1^T:   d/d eta2 = dSigma,   d/d eta1[i] = dmu[i] - sum_k dSigma[i,k] mu[k] - sum_k dSigma[k,i] mu[k]"""
+    it, ctx = c.it, c.ctx
+    bs, b = batch_setup(c, br)
+    m = c.size("m")
+    mu = sym_tensor("mu", bs + [m.t])
+    L = sym_tensor("L", bs + [m.t, m.t])
+    C = sym_tensor("Linv", bs + [m.t, m.t])
+    dmu = sym_tensor("dout_dmu", bs + [m.t])
+    dL = sym_tensor("dout_dL", bs + [m.t, m.t])
+    dS = sym_tensor("dSigma", bs + [m.t, m.t], symmetric=True)
+    calls = []
+
+    def hook(it_, ctx_, finfo, args, kwargs):
+        if finfo.qualname.endswith("._cholesky_backward"):
+            calls.append(list(args))
+            return dS
+        if finfo.qualname.endswith("._triangular_inverse"):
+            calls.append(("inv", list(args), dict(kwargs)))
+            return C
+        return NotImplemented
+
+    it.call_hooks.append(hook)
+    i, j = ivar("i"), ivar("j")
+    c.assume(z3.And(i >= 0, i < m.t, j >= 0, j < m.t))
+    out = it.call(ctx, c.func(f"{NAT}._NaturalToMuVarSqrt._backward"), [dmu, dL, mu, L, C], {})
+    c.prove("natural._backward.calls_cholesky_backward_on(dout_dL, L, L^-1)", z3.BoolVal(len(calls) == 1 and calls[0][0] is dL and calls[0][1] is L and calls[0][2] is C))
+    o1, o2 = out.items
+    from engine.dom_elem import mk_sum
+    # dSigma[k, i] = dSigma[i, k] (symmetric by construction of the symbolic tensor): both sums are the same sum
+    want = dmu.at(b + [i]) - 2 * mk_sum(lambda k: dS.at(b + [i, k]) * mu.at(b + [k]), m.t)
+    c.prove("natural._backward.d_eta1", o1.at(b + [i]) == want)
+    c.prove("natural._backward.d_eta2", o2.at(b + [i, j]) == dS.at(b + [i, j]))
+    # backward(ctx, ...) = _backward on the saved (mu, L) and L^-1
+    del calls[:]
+    bctx = Stub("ctx", attrs={"saved_tensors": VTuple([mu, L])})
+    out2 = it.call(ctx, c.func(f"{NAT}._NaturalToMuVarSqrt.backward"), [bctx, dmu, dL], {})
+    inv_calls = [x for x in calls if isinstance(x, tuple)]
+    upper = inv_calls[0][2].get("upper", inv_calls[0][1][1] if len(inv_calls[0][1]) > 1 else FALSE) if inv_calls else None
+    c.prove("natural.backward.inverts_saved_L_as_lower_triangular", z3.BoolVal(len(inv_calls) == 1 and inv_calls[0][1][0] is L and isinstance(upper, VBool) and z3.is_false(upper.t)))
+    p1, p2 = out2.items
+    c.prove("natural.backward.d_eta1", p1.at(b + [i]) == want)
+    c.prove("natural.backward.d_eta2", p2.at(b + [i, j]) == dS.at(b + [i, j]))
+
+
+@case("C19", clause="tril_natural_backward", expand=lambda ix: [(m, br) for m in (1, 2, 3) for br in (0, 1)], replay=lambda *a: replay_natural(*a),
+      functions=[f"{TRN}._TrilNaturalToMuVarSqrt.backward", f"{NAT}._phi_for_cholesky_"], timeout=600)
+def tril_natural_backward(c, m, br):
+    """the direction delivered for the triangular parameter C (natural matrix Theta = -1/2 C^T C) is the push-forward of the natural-gradient
+    direction dTheta:  for every lower-triangular tangent Cdot, feeding dTheta = -1/2 (Cdot^T C + C^T Cdot) yields exactly Cdot
+    (C -> Theta is one-to-one from lower-triangular positive-diagonal factors onto the negative-definite matrices, so every symmetric
+    dTheta arises this way).  d_eta1 is handed through from _NaturalToMuVarSqrt._backward.  Matrix size enumerated (m = 1, 2, 3)."""
+    it, ctx = c.it, c.ctx
+    bs, b = batch_setup(c, br)
+    Cm, Lm, cent = lower_factor(c, "c", bs, m)  # C and L = C^-1
+    mu = sym_tensor("mu", bs + [z3.IntVal(m)])
+    dmu = sym_tensor("dout_dmu", bs + [z3.IntVal(m)])
+    dL = sym_tensor("dout_dL", bs + [z3.IntVal(m), z3.IntVal(m)])
+    dn1 = sym_tensor("dout_dnat1", bs + [z3.IntVal(m)])
+    td = {(p, q): z3.Real(f"cdot{p + 1}{q + 1}") for p in range(m) for q in range(p + 1)}
+
+    def dtheta(bidx, p, q):
+        s = z3.RealVal(0)
+        for k in range(m):
+            if k >= p and k >= q:
+                s = s + td[(k, p)] * cent(bidx, k, q) + cent(bidx, k, p) * td[(k, q)]
+        return -s / 2
+
+    dn2 = lit_matrix(bs, m, dtheta)
+    calls = []
+
+    def hook(it_, ctx_, finfo, args, kwargs):
+        if finfo.qualname.endswith("_NaturalToMuVarSqrt._backward"):
+            calls.append(list(args))
+            return VTuple([dn1, dn2])
+        return NotImplemented
+
+    it.call_hooks.append(hook)
+    bctx = Stub("ctx", attrs={"saved_tensors": VTuple([mu, Lm, Cm])})
+    out = it.call(ctx, c.func(f"{TRN}._TrilNaturalToMuVarSqrt.backward"), [bctx, dmu, dL], {})
+    c.prove("tril.backward.calls_natural_backward_on(dmu, dL, mu, L, C)",
+            z3.BoolVal(len(calls) == 1 and len(calls[0]) == 5 and all(x is y for x, y in zip(calls[0], [dmu, dL, mu, Lm, Cm]))))
+    o1, o2 = out.items
+    c.prove("tril.backward.d_eta1_handed_through", o1.at(b + [z3.IntVal(0)]) == dn1.at(b + [z3.IntVal(0)]))
+    for p in range(m):
+        for q in range(m):
+            c.prove_identity(f"tril.backward.pushforward[{p},{q}]", o2.at(b + [z3.IntVal(p), z3.IntVal(q)]), td[(p, q)] if q <= p else z3.RealVal(0))
+
+
+def replay_natural(model, params, clause, info):
+    """real code: gradient delivered to the natural parameters vs autograd of the explicit expectation-parameter form"""
+    from bounded import C19_numeric
+    res = C19_numeric.run("quick", 0)
+    bad = [v for v in res["violations"] if v["key"].startswith("natural_gradient")]
+    return {"violates": bool(bad), "detail": "; ".join(f"{v['key']}: {v['detail']}" for v in bad)[:600] or "natural-gradient checks pass on the real code",
+            "entry": {"module": "contracts.C19_backward", "function": "replay_natural", "args": [model, list(params), clause, info]}}
